@@ -726,9 +726,19 @@ LEVEL_TEXT = ("Machine-checked (Coq) theorems over an executable model of Simple
               "lists are distinct, an alloc never returns a buffer in use, capacity >= request, reuse only within the size class, an unknown "
               "release changes nothing and warns once, and after clearAll (+destruction) every block obtained has been given back exactly "
               "once with its size. Tied to the code by a differential run against the real cache over a recording allocator, judged by the "
-              "extracted model-free spec.")
+              "extracted model-free spec. INSTALLED cache (coq/C18_ModelG.v): the life cycle of GlobalSimpleStringCache objects (constructor "
+              "installs the cache allocator over what is installed, destructor uninstalls and clears everything) as a stack of the same cache "
+              "model over the recording string allocator, nested to any depth; proved for every valid history: the model's observation meets "
+              "the model-free statement (recorder's books legal, exactly once, with the size; no overlap with any buffer in use; one-time "
+              "warning per object; after clearAll / DESTRUCTION the object holds nothing of its underlying allocator and, outermost, every "
+              "recorder block obtained since its construction is back), the final books are balanced, one installed object IS the cache "
+              "model, and the destructor that only calls clearCache is refuted. Observed on real GlobalSimpleStringCache objects with "
+              "forwarding recorders between the levels.")
 LEVEL_NOTE = ("Partial for memory safety: real accesses are seen only by ASan (blocks given back are poisoned). Trusted: Coq kernel, extraction, "
               "harness, generator. Modelled not verified: the C++ itself. Class sizes, bound, node count and struct sizes are re-read from the "
-              "source on every run. The bare destructor does not walk the lists (documented limit: owners clear first).")
+              "source on every run. The bare destructor does not walk the lists (documented limit: owners clear first). Installed scenarios: "
+              "the node array (malloc allocator) is outside the recorder's books; the strings the warning builds for itself are served outside "
+              "the cache by the harness; an object nested in another returns buffers above the bound with size 0, which the outer cache keeps "
+              "(one spurious warning) until it dies -- modelled and judged as such, not counted as a violation.")
 TECHNIQUE = "Coq proof over hand-written executable model + extracted-model/implementation correspondence check (differential, exhaustive small histories)"
 READY = True
